@@ -20,7 +20,8 @@ LEVEL_TEXT = ("Lean theorems (all lengths, all values, no bound): two's compleme
               "little-endian = byte reversal of big-endian, byte reversal is an involution and reads as sum(byte_i * 256^i); hex/oct/bin are one digit per 4/3/1 bits "
               "and parse(print(bits)) = bits; every one of the seven creation routes (keyword+length, name-with-length, property, property-with-length, token string, "
               "Dtype.build, pack), transcribed with the validation each really performs, returns exactly the canonical encoding on every valid (dtype, length, value), "
-              "and every one of the five reading routes (property, property-with-length, Dtype.parse, unpack, read) returns the specified value on every pattern of a valid length; "
+              "and every one of the five reading routes (property, property-with-length, Dtype.parse, unpack, read) returns the specified value on every pattern of a valid length "
+              "(at any position of a stream, advancing by exactly its length); whenever any route that is given a length succeeds, on any input, the result has exactly that many bits; "
               "encode(decode(pattern)) = pattern (NaN excepted) and decode(encode(value)) = value per dtype; IEEE 754 binary16/32/64/bfloat as exact dyadics: "
               "round-to-nearest-even encode is a left inverse of decode on all non-NaN patterns (so decode is injective there) and widening to binary64 is exact. "
               "Correspondence: every dtype and alias x lengths 1..130, 256, 512, 1000 x boundary and random values, every bit pattern up to 10 bits, all routes x all four classes, "
@@ -804,7 +805,7 @@ def gen(rng, tier):
         for n in ([None, 0] + ([] if fam in ("uint", "int") else [1, 4, 7, 9, 12, 15, 17, 63, 65])):
             for v in (0, 1, -1):
                 yield L("enc", BO, names[0], n, v)
-    for _ in range(20000 if big else 1500):
+    for _ in range(20000 if big else 3000):
         fam = rng.choice(list(INT_NAMES))
         n = rng.choice([rng.randint(1, 130), rng.randint(1, 70), 8 * rng.randint(1, 20), 1000 if rng.random() < 0.02 else 64])
         if fam not in ("uint", "int") and rng.random() < 0.95:
@@ -819,7 +820,7 @@ def gen(rng, tier):
             for t in itertools.product(digits, repeat=k):
                 s = "".join(t)
                 yield L("enc", BO, names[k % 2], k * w if (k + len(s) + sum(map(ord, s))) % 3 else "None", "s" + esc(s))
-        for _ in range(6000 if big else 700):
+        for _ in range(6000 if big else 1200):
             k = rng.choice([0, 1, 2, 3, 4, 5, 8, 16, 17, 31, 32, 33, rng.randint(0, 130 // w), 250 if rng.random() < 0.03 else 7])
             s = "".join(rng.choice(digits) for _ in range(k))
             nbits = k * w
@@ -855,7 +856,7 @@ def gen(rng, tier):
             for n in (16, 32, 64):
                 yield L("enc", BO, rng.choice(FLT_NAMES), n, "%016x" % (p | sgn))
             yield L("enc", BO, rng.choice(BFL_NAMES), rng.choice([16, "None"]), "%016x" % (p | sgn))
-    for _ in range(60000 if big else 5000):
+    for _ in range(60000 if big else 7000):
         name = rng.choice(FLT_NAMES)
         n = rng.choice([16, 16, 32, 32, 64])
         yield L("enc", BO, name, n, "%016x" % _rand_double(rng, {16: F16, 32: F32, 64: F64}[n]))
@@ -950,7 +951,7 @@ def gen(rng, tier):
     for h in bs:
         yield L("dec", BO, BFL_NAMES[h % len(BFL_NAMES)], 16 if h % 2 else "None", format(h, "016b"))
     for n, (E, M) in ((32, F32), (64, F64)):
-        for _ in range(20000 if big else 2500):
+        for _ in range(20000 if big else 3500):
             k = rng.random()
             e = rng.choice([0, 0, 1, (1 << E) - 2, (1 << E) - 1, (1 << (E - 1)) - 1, rng.randrange(1 << E), rng.randrange(1 << E)])
             m = rng.choice([0, 1, (1 << M) - 1, 1 << (M - 1), rng.getrandbits(M), rng.getrandbits(M)])
@@ -958,7 +959,7 @@ def gen(rng, tier):
             yield L("dec", BO, rng.choice(FLT_NAMES), n if k < 0.7 else "None", format(p, "0%db" % n))
 
     # ---- read at a position inside a longer stream
-    for _ in range(20000 if big else 3000):
+    for _ in range(20000 if big else 4000):
         fam = rng.choice(["uint", "int", "bin", "bits", "hex", "oct", "bool", "bytes", "uintbe", "intbe", "uintle", "intle", "float", "floatle", "bfloat", "bfloatle", "pad"])
         names = INT_NAMES.get(fam) or STR_NAMES.get(fam) or ({"float": FLT_NAMES[:3], "floatle": FLT_NAMES[3:], "bfloat": BFL_NAMES[:2], "bfloatle": BFL_NAMES[2:]}.get(fam)) or (fam,)
         mult = 8 if fam == "bytes" else 1
